@@ -243,3 +243,44 @@ def short(node, n=90):
         s = "<%s>" % type(node).__name__
     s = " ".join(s.split())
     return s if len(s) <= n else s[:n - 3] + "..."
+
+
+def concat_terms(node):
+    """operands of a concatenation written with `+` or as <empty constant>.join([..]) / .join((..))"""
+    if isinstance(node, ast.BinOp) and isinstance(node.op, ast.Add):
+        return concat_terms(node.left) + concat_terms(node.right)
+    if isinstance(node, ast.Call) and isinstance(node.func, ast.Attribute) and node.func.attr == "join" \
+            and isinstance(node.func.value, ast.Constant) and node.func.value.value in (b"", "") \
+            and len(node.args) == 1 and isinstance(node.args[0], (ast.List, ast.Tuple)) and not node.keywords \
+            and not any(isinstance(e, ast.Starred) for e in node.args[0].elts):
+        out = []
+        for e in node.args[0].elts:
+            out.extend(concat_terms(e))
+        return out
+    return [node]
+
+
+def int_to_decimal_str_of(node):
+    """X if node renders the integer X in decimal: "%d" % X, "%d" % (X,), str(X), f"{X}", f"{X:d}", "{}".format(X),
+    "{:d}".format(X); else None"""
+    if isinstance(node, ast.BinOp) and isinstance(node.op, ast.Mod) and isinstance(node.left, ast.Constant) \
+            and node.left.value in ("%d", "%s", "%i"):
+        r = node.right
+        if isinstance(r, ast.Tuple) and len(r.elts) == 1:
+            r = r.elts[0]
+        return None if isinstance(r, ast.Tuple) else r
+    if isinstance(node, ast.Call) and isinstance(node.func, ast.Name) and node.func.id == "str" and len(node.args) == 1 \
+            and not node.keywords:
+        return node.args[0]
+    if isinstance(node, ast.JoinedStr) and len(node.values) == 1 and isinstance(node.values[0], ast.FormattedValue):
+        fv = node.values[0]
+        spec = fv.format_spec
+        spec_ok = spec is None or (isinstance(spec, ast.JoinedStr) and len(spec.values) == 1
+                                   and isinstance(spec.values[0], ast.Constant) and spec.values[0].value in ("d", ""))
+        if fv.conversion in (-1, 115) and spec_ok:
+            return fv.value
+    if isinstance(node, ast.Call) and isinstance(node.func, ast.Attribute) and node.func.attr == "format" \
+            and isinstance(node.func.value, ast.Constant) and node.func.value.value in ("{}", "{:d}", "{0}", "{0:d}") \
+            and len(node.args) == 1 and not node.keywords:
+        return node.args[0]
+    return None
